@@ -160,44 +160,191 @@ def _r10h(chk, repo) -> None:
 
 
 def _r10j(chk, repo) -> None:
-    """JJ01 rebuilds a tag from its own five parts, in order; a whitespace part gives way only to its own fix."""
-    f = repo.fn("src/sqlfluff/rules/jinja/JJ01.py", "Rule_JJ01._eval")
+    """JJ01 rebuilds a tag from its own five parts, in order; a whitespace part gives way only to its own fix.
+
+    Spellings seen through: the replacement text by position or as ``edit=``; the parts joined by ``+``, an f-string
+    (no literal text, no conversion) or ``"".join([...])`` (list through a local); a part read through locals; the
+    tuple kept whole and read by constant index; ``fix or part``, a conditional expression with the part as one arm,
+    or a local that holds the part and is overwritten by something that is not a part; the expression moved into a
+    one-``return`` helper (nested: closes over the parts; module level / method: gets them as arguments)."""
+    rel = "src/sqlfluff/rules/jinja/JJ01.py"
+    f = repo.fn(rel, "Rule_JJ01._eval")
     cfg = cfg_of(f)
-    sfx = [c for c in calls_in(f) if last_attr(c) == "SourceFix" and c.args]
+    sfx = [c for c in calls_in(f) if last_attr(c) == "SourceFix" and arg_of(c, 0, "edit") is not None]
     if not sfx:
         raise AnalysisError("R10j: JJ01._eval no longer builds a SourceFix (anchor refactored)")
 
-    def comp(e, at):
-        """Index of the _get_whitespace_ends component that ``e`` is (a plain read of the unpacked name), else None."""
-        if not isinstance(e, ast.Name):
-            return None
-        os_ = origins(cfg, e, at)
-        if len(os_) == 1 and os_[0].kind == "expr" and isinstance(os_[0].expr, ast.Call) and last_attr(os_[0].expr) == "_get_whitespace_ends" and len(os_[0].path) == 1:
-            return os_[0].path[0]
+    def is_ends_call(e) -> bool:
+        return isinstance(e, ast.Call) and last_attr(e) == "_get_whitespace_ends"
+
+    def const_index(sub):
+        k = sub.slice
+        if isinstance(k, ast.Constant) and isinstance(k.value, int) and not isinstance(k.value, bool) and 0 <= k.value <= 4:
+            return k.value
         return None
 
-    def flat(e, at, depth=0):
+    def leaf_comp(e, path, at):
+        """Component index when (e, path) denotes one element of the tuple returned by _get_whitespace_ends."""
+        if is_ends_call(e):
+            return path[0] if len(path) == 1 and isinstance(path[0], int) else None
+        if isinstance(e, ast.Subscript) and not path:
+            k = const_index(e)
+            if k is None:
+                return None
+            if is_ends_call(e.value):
+                return k
+            if isinstance(e.value, ast.Name):
+                os_ = origins(cfg, e.value, at)
+                if os_ and all(o.kind == "expr" and is_ends_call(o.expr) and not o.path for o in os_):
+                    return k
+        return None
+
+    def sub_env(e, env):
+        while isinstance(e, ast.Name) and env and e.id in env:
+            e, env = env[e.id]
+        return e, env
+
+    def comps(e, at, env=None):
+        """(set of component indices the value of ``e`` may be, whether it may also be something that is no component)."""
+        e, env = sub_env(e, env)
+        if isinstance(e, ast.Name):
+            idx, other = set(), False
+            for o in origins(cfg, e, at):
+                k = leaf_comp(o.expr, o.path, o.stmt or at) if o.kind == "expr" else None
+                if k is None:
+                    other = True
+                else:
+                    idx.add(k)
+            return idx, other
+        k = leaf_comp(e, (), at)
+        return ({k}, False) if k is not None else (set(), True)
+
+    def comp(e, at, env=None):
+        idx, other = comps(e, at, env)
+        return next(iter(idx)) if len(idx) == 1 and not other else None
+
+    def helper_of(call):
+        """(function, nested?) for a call of a one-``return`` helper defined in _eval, in the module or on the class."""
+        fn = call.func
+        name = fn.id if isinstance(fn, ast.Name) else fn.attr if isinstance(fn, ast.Attribute) and isinstance(fn.value, ast.Name) and fn.value.id in ("self", "cls", "Rule_JJ01") else None
+        if name is None or name == "_get_whitespace_ends":
+            return None, False
+        for d in ast.walk(f):
+            if isinstance(d, (ast.FunctionDef,)) and d is not f and d.name == name and isinstance(fn, ast.Name):
+                return d, True
+        mod = repo.mod(rel)
+        for qn in (name, f"Rule_JJ01.{name}"):
+            try:
+                return repo.fn(rel, qn), False
+            except AnalysisError:
+                continue
+        return None, False
+
+    def helper_return(d):
+        body = [s for s in d.body if not (isinstance(s, ast.Expr) and isinstance(s.value, ast.Constant))]
+        if len(body) == 1 and isinstance(body[0], ast.Return) and body[0].value is not None:
+            return body[0].value
+        return None
+
+    def bind(d, call, env, nested):
+        a = d.args
+        if a.vararg or a.kwarg or a.kwonlyargs or any(isinstance(x, ast.Starred) for x in call.args) or any(k.arg is None for k in call.keywords):
+            return None
+        params = [x.arg for x in a.posonlyargs + a.args]
+        if params and params[0] in ("self", "cls") and isinstance(call.func, ast.Attribute):
+            params = params[1:]
+        if len(call.args) > len(params):
+            return None
+        out = {}
+        for pn, av in zip(params, call.args):
+            out[pn] = (av, env)
+        for k in call.keywords:
+            if k.arg not in params or k.arg in out:
+                return None
+            out[k.arg] = (k.value, env)
+        if set(out) != set(params):
+            return None  # defaults: not followed
+        ret = helper_return(d)
+        free = {n.id for n in ast.walk(ret) if isinstance(n, ast.Name)} - set(params)
+        if free and not nested:
+            return None
+        if nested and env:
+            return None
+        return out
+
+    def flat(e, at, env=None, depth=0):
+        e, env = sub_env(e, env)
         if isinstance(e, ast.BinOp) and isinstance(e.op, ast.Add):
-            return flat(e.left, at, depth) + flat(e.right, at, depth)
-        if isinstance(e, ast.Name) and comp(e, at) is None and depth < 4:
+            return flat(e.left, at, env, depth) + flat(e.right, at, env, depth)
+        if isinstance(e, ast.JoinedStr):
+            out = []
+            for v in e.values:
+                if isinstance(v, ast.FormattedValue) and v.conversion == -1 and v.format_spec is None:
+                    out += flat(v.value, at, env, depth)
+                elif isinstance(v, ast.Constant) and v.value == "":
+                    continue
+                else:
+                    out.append((v, at, env))
+            return out
+        if isinstance(e, ast.Call) and isinstance(e.func, ast.Attribute) and e.func.attr == "join" and isinstance(e.func.value, ast.Constant) and e.func.value.value == "" and len(e.args) == 1 and not e.keywords:
+            seq, senv, sat = e.args[0], env, at
+            seq, senv = sub_env(seq, senv)
+            if isinstance(seq, ast.Name):
+                os_ = origins(cfg, seq, at)
+                if len(os_) == 1 and os_[0].kind == "expr" and not os_[0].path and isinstance(os_[0].expr, (ast.List, ast.Tuple)) and not _mutated_between(seq.id, os_[0].stmt, at):
+                    seq, sat = os_[0].expr, os_[0].stmt
+            if isinstance(seq, (ast.List, ast.Tuple)) and not any(isinstance(x, ast.Starred) for x in seq.elts):
+                out = []
+                for x in seq.elts:
+                    out += flat(x, sat, senv, depth)
+                return out
+        if isinstance(e, ast.Call) and depth < 4:
+            d, nested = helper_of(e)
+            if d is not None and helper_return(d) is not None:
+                new_env = bind(d, e, env, nested)
+                if new_env is not None:
+                    return flat(helper_return(d), at, new_env, depth + 1)
+        if isinstance(e, ast.Name) and depth < 4 and not comps(e, at, env)[0]:
             os_ = origins(cfg, e, at)
-            if len(os_) == 1 and os_[0].kind == "expr" and isinstance(os_[0].expr, (ast.BinOp, ast.BoolOp, ast.Name, ast.IfExp)) and not os_[0].path:
-                return flat(os_[0].expr, os_[0].stmt, depth + 1)
-        return [(e, at)]
+            if len(os_) == 1 and os_[0].kind == "expr" and isinstance(os_[0].expr, (ast.BinOp, ast.BoolOp, ast.Name, ast.IfExp, ast.JoinedStr, ast.Call)) and not os_[0].path:
+                return flat(os_[0].expr, os_[0].stmt, None, depth + 1)
+        return [(e, at, env)]
+
+    def _mutated_between(name, def_stmt, use_stmt) -> bool:
+        """A list held in a local and changed in place (append/insert/extend/item assignment/+=) anywhere in _eval."""
+        for n in walk_local(f):
+            if isinstance(n, ast.Attribute) and isinstance(n.value, ast.Name) and n.value.id == name and n.attr in ("append", "insert", "extend", "pop", "remove", "reverse", "sort", "clear"):
+                return True
+            if isinstance(n, ast.Subscript) and isinstance(n.value, ast.Name) and n.value.id == name and isinstance(n.ctx, (ast.Store, ast.Del)):
+                return True
+            if isinstance(n, ast.AugAssign) and isinstance(n.target, ast.Name) and n.target.id == name:
+                return True
+        return False
+
+    def slot(e, at, env):
+        """('is', k): the value is component k and nothing else; ('or', k): component k or something that is no
+        component (its fix); (?, None): anything else."""
+        e, env = sub_env(e, env)
+        if isinstance(e, ast.BoolOp) and isinstance(e.op, ast.Or) and len(e.values) == 2:
+            return ("or", comp(e.values[1], at, env) if not comps(e.values[0], at, env)[0] else None)
+        if isinstance(e, ast.IfExp):
+            arms = [comps(e.body, at, env), comps(e.orelse, at, env)]
+            pure = [next(iter(i)) for i, o in arms if len(i) == 1 and not o]
+            foreign = [1 for i, o in arms if not i]
+            return ("or", pure[0] if len(pure) == 1 and len(foreign) == 1 else None)
+        idx, other = comps(e, at, env)
+        if len(idx) == 1 and not other:
+            return ("is", next(iter(idx)))
+        if len(idx) == 1 and other:
+            return ("or", next(iter(idx)))
+        return ("is", None)
 
     n = 0
     for c in sfx:
         st = cfg.stmt_of(c)
-        parts = flat(c.args[0], st)
+        parts = flat(arg_of(c, 0, "edit"), st)
         n += 1
-        got = []
-        for e, at in parts:
-            if isinstance(e, ast.BoolOp) and isinstance(e.op, ast.Or) and len(e.values) == 2:
-                got.append(("or", comp(e.values[1], at), e))
-            elif isinstance(e, ast.IfExp):
-                got.append(("or", comp(e.orelse, at) if comp(e.orelse, at) is not None else comp(e.body, at), e))
-            else:
-                got.append(("is", comp(e, at), e))
+        got = [slot(e, at, env) for e, at, env in parts]
         idxs = [g[1] for g in got]
         chk.require(
             idxs == [0, 1, 2, 3, 4] and got[0][0] == got[2][0] == got[4][0] == "is", "R10j", c,
@@ -267,6 +414,57 @@ def _r10f(chk, repo) -> None:
         )
     chk.count("R10f.templated_tests", n)
     chk.floor("R10f.templated_tests", 2)
+    # which quantifier: `all` (conflict only if everything touched is templated) is for the zero-width create fixes only
+    cfg = cfg_of(f)
+    nq = 0
+    for c in [c for c in calls_in(f) if c.args and isinstance(c.args[0], (ast.GeneratorExp, ast.ListComp)) and any(
+            isinstance(x, ast.Attribute) and x.attr == "slice_type" for x in ast.walk(c.args[0].elt))]:
+        fn = c.func
+        exprs = [fn]
+        if isinstance(fn, ast.Name) and fn.id not in ("any", "all"):
+            exprs, seen_st = [], set()
+            for o in origins(cfg, fn, cfg.stmt_of(c)):
+                # origins() opens a conditional expression into its arms; the choice is what matters here: take the defining statement's value
+                if isinstance(o.stmt, (ast.Assign, ast.AnnAssign)) and o.stmt.value is not None and not o.path:
+                    if id(o.stmt) not in seen_st:
+                        seen_st.add(id(o.stmt))
+                        exprs.append(o.stmt.value)
+                elif isinstance(o.expr, ast.AST):
+                    exprs.append(o.expr)
+            if not exprs:
+                raise AnalysisError("R10f: the quantifier of has_template_conflicts' slice test is no longer a local holding any / all (anchor refactored)")
+        for e in exprs:
+            nq += 1
+            all_for: Optional[set] = None
+            if isinstance(e, ast.Name) and e.id == "any":
+                all_for = set()
+            elif isinstance(e, ast.IfExp) and isinstance(e.body, ast.Name) and isinstance(e.orelse, ast.Name) and {e.body.id, e.orelse.id} == {"any", "all"}:
+                t = e.test
+                if isinstance(t, ast.Compare) and len(t.ops) == 1 and norm(t.left).endswith("edit_type"):
+                    vals = None
+                    c0 = t.comparators[0]
+                    if isinstance(t.ops[0], (ast.In, ast.NotIn)) and isinstance(c0, (ast.Tuple, ast.List, ast.Set)) and all(isinstance(x, ast.Constant) for x in c0.elts):
+                        vals = {x.value for x in c0.elts}
+                    elif isinstance(t.ops[0], (ast.Eq, ast.NotEq)) and isinstance(c0, ast.Constant):
+                        vals = {c0.value}
+                    if vals is not None:
+                        positive = isinstance(t.ops[0], (ast.In, ast.Eq))
+                        when_true_all = e.body.id == "all"
+                        if positive == when_true_all:
+                            all_for = vals
+                        else:
+                            all_for = {"create_before", "create_after", "replace", "delete"} - vals
+            if all_for is None:
+                chk.fail("R10f", c, f"the quantifier of the templated-slice test is `{short(e, 60)}`: not `any`, and not `all` for the create fixes only", detail="has_template_conflicts: any templated slice conflicts (all only for creates)")
+                continue
+            extra = sorted(all_for - {"create_before", "create_after"})
+            chk.require(
+                not extra, "R10f", c,
+                f"has_template_conflicts asks that ALL slices under the anchor be templated before a {'/'.join(extra)} fix counts as a conflict: a {'/'.join(extra)} whose anchor is part literal, part "
+                "template output survives the discard step, its patch cannot be written and is dropped while its sibling patches are, and the file is left with half of a fix",
+                detail="has_template_conflicts: any templated slice conflicts (all only for creates)",
+            )
+    chk.count("R10f.quantifier_sites", nq)
 
 
 def _r10g(chk, repo) -> None:
@@ -1066,6 +1264,18 @@ _KEEP_IF_FLAG = (
 
 VARIANTS = [
     Variant(
+        "delete-conflicts-only-when-wholly-templated", "src/sqlfluff/core/rules/fix.py",
+        '        check_fn = all if self.edit_type in ("create_before", "create_after") else any\n',
+        '        check_fn = all if self.edit_type in ("create_before", "create_after", "delete") else any\n',
+        "R10f", "LintFix.has_template_conflicts", "seeded C13-9: half of a multi-part fix reaches the file",
+    ),
+    Variant(
+        "quiet-quantifier-picked-by-negated-test", "src/sqlfluff/core/rules/fix.py",
+        '        check_fn = all if self.edit_type in ("create_before", "create_after") else any\n',
+        '        check_fn = any if self.edit_type not in ("create_before", "create_after") else all\n',
+        "QUIET", None, "the same choice written the other way round",
+    ),
+    Variant(
         "jj01-trailing-space-falls-back-to-the-leading-one", "src/sqlfluff/rules/jinja/JJ01.py",
         "                tag_pre + (pre_fix or ws_pre) + inner + (post_fix or ws_post) + tag_post\n",
         "                tag_pre + (pre_fix or ws_pre) + inner + (post_fix or ws_pre) + tag_post\n",
@@ -1119,6 +1329,55 @@ VARIANTS = [
         "            fixed = (\n                tag_pre + (pre_fix or ws_pre) + inner + (post_fix or ws_post) + tag_post\n            )\n",
         "            def _rebuild(lead, trail):\n                return tag_pre + (lead or ws_pre) + inner + (trail or ws_post) + tag_post\n\n            fixed = _rebuild(pre_fix, post_fix)\n",
         "QUIET", None, "R10j: the concatenation in a nested function closing over the five parts",
+    ),
+    # breaking twins of the spellings above
+    Variant(
+        "jj01-fstring-pads-with-literal-spaces", "src/sqlfluff/rules/jinja/JJ01.py",
+        "            fixed = (\n                tag_pre + (pre_fix or ws_pre) + inner + (post_fix or ws_post) + tag_post\n            )\n",
+        '            fixed = f"{tag_pre} {inner} {tag_post}"\n',
+        "R10j", "Rule_JJ01._eval", "f-string twin: whitespace holding a newline is flattened to one space",
+    ),
+    Variant(
+        "jj01-join-repeats-the-leading-whitespace", "src/sqlfluff/rules/jinja/JJ01.py",
+        "            fixed = (\n                tag_pre + (pre_fix or ws_pre) + inner + (post_fix or ws_post) + tag_post\n            )\n",
+        '            pieces = [tag_pre, pre_fix or ws_pre, inner, post_fix or ws_pre, tag_post]\n            fixed = "".join(pieces)\n',
+        "R10j", "Rule_JJ01._eval", "join twin of seeded C17-8",
+    ),
+    Variant(
+        "jj01-join-list-gets-one-more-piece", "src/sqlfluff/rules/jinja/JJ01.py",
+        "            fixed = (\n                tag_pre + (pre_fix or ws_pre) + inner + (post_fix or ws_post) + tag_post\n            )\n",
+        '            pieces = [tag_pre, pre_fix or ws_pre, inner, post_fix or ws_post, tag_post]\n            pieces.insert(1, ws_pre)\n            fixed = "".join(pieces)\n',
+        "R10j", "Rule_JJ01._eval", "join twin: the list is changed in place before it is joined",
+    ),
+    Variant(
+        "jj01-indexed-ends-read-the-wrong-index", "src/sqlfluff/rules/jinja/JJ01.py",
+        "            tag_pre, ws_pre, inner, ws_post, tag_post = self._get_whitespace_ends(\n                stripped\n            )\n",
+        "            ends = self._get_whitespace_ends(stripped)\n            tag_pre, ws_pre, inner = ends[0], ends[1], ends[2]\n            ws_post = ends[1]\n            tag_post = ends[4]\n",
+        "R10j", "Rule_JJ01._eval", "index twin: trailing whitespace read from the leading slot",
+    ),
+    Variant(
+        "jj01-copy-starts-from-the-other-whitespace", "src/sqlfluff/rules/jinja/JJ01.py",
+        "            fixed = (\n                tag_pre + (pre_fix or ws_pre) + inner + (post_fix or ws_post) + tag_post\n            )\n",
+        "            lead_ws = ws_post\n            if pre_fix:\n                lead_ws = pre_fix\n            trail_ws = ws_post\n            if post_fix is not None:\n                trail_ws = post_fix\n            fixed = tag_pre + lead_ws + inner + trail_ws + tag_post\n",
+        "R10j", "Rule_JJ01._eval", "copy twin: the default of the leading slot is the trailing whitespace",
+    ),
+    Variant(
+        "jj01-copy-overwritten-by-another-part", "src/sqlfluff/rules/jinja/JJ01.py",
+        "            fixed = (\n                tag_pre + (pre_fix or ws_pre) + inner + (post_fix or ws_post) + tag_post\n            )\n",
+        "            lead_ws = ws_pre\n            if pre_fix:\n                lead_ws = ws_post\n            fixed = tag_pre + lead_ws + inner + (post_fix or ws_post) + tag_post\n",
+        "R10j", "Rule_JJ01._eval", "copy twin: the 'fix' of the leading slot is the trailing whitespace",
+    ),
+    Variant(
+        "jj01-nested-helper-drops-the-inner-text-order", "src/sqlfluff/rules/jinja/JJ01.py",
+        "            fixed = (\n                tag_pre + (pre_fix or ws_pre) + inner + (post_fix or ws_post) + tag_post\n            )\n",
+        "            def _rebuild(lead, trail):\n                return tag_pre + (lead or ws_pre) + (trail or ws_post) + inner + tag_post\n\n            fixed = _rebuild(pre_fix, post_fix)\n",
+        "R10j", "Rule_JJ01._eval", "helper twin: parts out of order inside the helper",
+    ),
+    Variant(
+        "jj01-conditional-falls-back-to-the-other-part", "src/sqlfluff/rules/jinja/JJ01.py",
+        "                tag_pre + (pre_fix or ws_pre) + inner + (post_fix or ws_post) + tag_post\n",
+        "                tag_pre + (ws_post if pre_fix is None else pre_fix) + inner + (post_fix or ws_post) + tag_post\n",
+        "R10j", "Rule_JJ01._eval", "conditional-expression twin",
     ),
     Variant(
         "jj01-closing-plus-is-not-a-modifier", "src/sqlfluff/rules/jinja/JJ01.py",
